@@ -7,6 +7,7 @@ import (
 	"fmt"
 	"os"
 	"runtime"
+	"strconv"
 	"sync/atomic"
 	"testing"
 	"time"
@@ -109,6 +110,7 @@ type loopCase struct {
 	Producers int
 	Consumers int
 	PerProd   int
+	Elem      int  // element type: 0 int, 1 string, 2 *int, 3 struct with a string field
 	Waits     bool // use PushWait(-1)/PopWait(-1) instead of spinning on Push/Pop in the harness
 }
 
@@ -119,15 +121,46 @@ type stalled struct{ msg string }
 func (e stalled) Error() string { return "INCONCLUSIVE: " + e.msg }
 
 func runLoops(c loopCase) error {
+	switch c.Elem {
+	case 1: // strings: an element type that carries a pointer
+		return runLoopsT(c, func(v int) string { return strconv.Itoa(v) + "#" }, func(s string) (int, bool) {
+			if len(s) < 2 || s[len(s)-1] != '#' {
+				return 0, false
+			}
+			v, err := strconv.Atoi(s[:len(s)-1])
+			return v, err == nil
+		})
+	case 2: // pointers
+		return runLoopsT(c, func(v int) *int { x := v; return &x }, func(p *int) (int, bool) {
+			if p == nil {
+				return 0, false
+			}
+			return *p, true
+		})
+	case 3: // a struct mixing scalar and pointer-carrying fields, with redundancy to detect torn values
+		type rec struct {
+			A int
+			S string
+			B int
+		}
+		return runLoopsT(c, func(v int) rec { return rec{A: v, S: strconv.Itoa(v), B: ^v} }, func(r rec) (int, bool) {
+			return r.A, r.B == ^r.A && r.S == strconv.Itoa(r.A)
+		})
+	}
+	return runLoopsT(c, func(v int) int { return v }, func(v int) (int, bool) { return v, true })
+}
+
+func runLoopsT[T any](c loopCase, enc func(int) T, dec func(T) (int, bool)) error {
 	if c.Req < 1 || c.Req > 1<<21 || c.Producers < 1 || c.Producers > 8 || c.Consumers < 1 || c.Consumers > 8 || c.PerProd < 1 || c.PerProd > 100000 {
 		return nil
 	}
-	q := ringz.NewSync[int](c.Req)
+	q := ringz.NewSync[T](c.Req)
 	capv := q.Cap()
 	total := c.Producers * c.PerProd
 	var consumed, produced, abort int64
 	got := make([][]int, c.Consumers)
-	var lenErr atomic.Value
+	var lenErr, torn atomic.Value
+	var tornCount int64
 	stop := make(chan struct{})
 	var bodies []func()
 	for p := 0; p < c.Producers; p++ {
@@ -135,7 +168,7 @@ func runLoops(c loopCase) error {
 		bodies = append(bodies, func() {
 			for i := 0; i < c.PerProd; i++ {
 				v := p*1000000 + i
-				for !q.Push(v) {
+				for !q.Push(enc(v)) {
 					if atomic.LoadInt64(&abort) != 0 {
 						return
 					}
@@ -149,10 +182,15 @@ func runLoops(c loopCase) error {
 		k := k
 		bodies = append(bodies, func() {
 			for atomic.LoadInt64(&consumed) < int64(total) && atomic.LoadInt64(&abort) == 0 {
-				v, ok := q.Pop()
+				tv, ok := q.Pop()
 				if !ok {
 					runtime.Gosched()
 					continue
+				}
+				v, valid := dec(tv)
+				if !valid {
+					torn.CompareAndSwap(nil, fmt.Sprintf("Pop returned %v, which is not a value that was ever pushed (torn or wiped element)", any(tv)))
+					v = -1 - int(atomic.AddInt64(&tornCount, 1))
 				}
 				got[k] = append(got[k], v)
 				atomic.AddInt64(&consumed, 1)
@@ -190,6 +228,9 @@ func runLoops(c loopCase) error {
 	if e := lenErr.Load(); e != nil {
 		return fmt.Errorf("%s", e)
 	}
+	if e := torn.Load(); e != nil {
+		return fmt.Errorf("%s", e)
+	}
 	seen := map[int]bool{}
 	for k, vs := range got {
 		last := map[int]int{}
@@ -212,10 +253,11 @@ func runLoops(c loopCase) error {
 		// everything has stopped: diagnose the quiescent ring sequentially (state-based, no timing involved)
 		drained := 0
 		for {
-			v, ok := q.Pop()
+			tv, ok := q.Pop()
 			if !ok {
 				break
 			}
+			v, _ := dec(tv)
 			if seen[v] {
 				return fmt.Errorf("value %d popped twice", v)
 			}
@@ -227,10 +269,12 @@ func runLoops(c loopCase) error {
 		if int64(len(seen)) < atomic.LoadInt64(&produced) {
 			return fmt.Errorf("no progress: %d values were pushed successfully but only %d ever came out and the quiescent ring is empty (lost values)", produced, len(seen))
 		}
-		if !q.Push(-1) {
+		if !q.Push(enc(-1)) {
 			return fmt.Errorf("no progress: Push fails on the drained, quiescent ring (Len %d, IsFull %v)", q.Len(), q.IsFull())
 		}
-		if v, ok := q.Pop(); !ok || v != -1 {
+		if tv, ok := q.Pop(); !ok {
+			return fmt.Errorf("no progress: Pop after a successful Push on the quiescent ring fails")
+		} else if v, _ := dec(tv); v != -1 {
 			return fmt.Errorf("no progress: Pop after a successful Push on the quiescent ring = %d,%v", v, ok)
 		}
 		return stalled{fmt.Sprintf("no progress for 15s with %d of %d consumed, but the quiescent ring is consistent", consumed, total)}
@@ -253,7 +297,8 @@ func TestRacedLoops(t *testing.T) {
 			// requested capacities far above the usual ones: the rounding to a power of two and the index mask
 			req = rapid.SampledFrom([]int{1000, 65535, 65536, 65537, 70000, 131073, 131074, 196609, 262145, 1<<20 + 1}).Draw(t, "largeReq")
 		}
-		return loopCase{Req: req, Producers: rapid.IntRange(1, 4).Draw(t, "p"), Consumers: rapid.IntRange(1, 4).Draw(t, "c"),
+		elem := rapid.SampledFrom([]int{0, 0, 1, 2, 3}).Draw(t, "elem")
+		return loopCase{Elem: elem, Req: req, Producers: rapid.IntRange(1, 4).Draw(t, "p"), Consumers: rapid.IntRange(1, 4).Draw(t, "c"),
 			PerProd: rapid.IntRange(200, 3000).Draw(t, "n")}
 	})
 	n := pb.Scaled(40)
@@ -276,6 +321,7 @@ func TestRacedLoops(t *testing.T) {
 		rec.NonTrivialIf(c.Producers >= 2 && c.Consumers >= 2)
 		rec.ClassIf(c.Producers >= 2 && c.Consumers >= 2, "MPMC")
 		rec.ClassIf(c.Req > 65536, "requested capacity above 2^16")
+		rec.ClassIf(c.Elem != 0, "pointer-carrying element type")
 		st.Case(js, rec)
 	}
 }
